@@ -1395,6 +1395,17 @@ syntax_error:
 // Specialization for reading MPS format
 // ---------------------------------------------------------------------------------------------------------------------
 
+/// Converts a numeric field; atof() also accepts "nan", which is no number an LP can hold.
+static inline double MPSreadValue(MPSInput& mps, const char* field)
+{
+   double val = atof(field);
+
+   if(val != val)
+      mps.syntaxError();
+
+   return val;
+}
+
 /// Process NAME section.
 static inline void MPSreadName(MPSInput& mps, SPxOut* spxout)
 {
@@ -1641,7 +1652,7 @@ static void MPSreadCols(MPSInput& mps, const LPRowSetBase<R>& rset, const NameSe
          }
       }
 
-      val = atof(mps.field3());
+      val = MPSreadValue(mps, mps.field3());
 
       if(!strcmp(mps.field2(), mps.objName()))
          col.setObj(val);
@@ -1667,7 +1678,7 @@ static void MPSreadCols(MPSInput& mps, const LPRowSetBase<R>& rset, const NameSe
       {
          assert(mps.field4() != nullptr);
 
-         val = atof(mps.field5());
+         val = MPSreadValue(mps, mps.field5());
 
          if(!strcmp(mps.field4(), mps.objName()))
             col.setObj(val);
@@ -1747,7 +1758,7 @@ static void MPSreadRhs(MPSInput& mps, LPRowSetBase<R>& rset, const NameSet& rnam
             mps.entryIgnored("RHS", mps.field1(), "row", mps.field2());
          else
          {
-            val = atof(mps.field3());
+            val = MPSreadValue(mps, mps.field3());
 
             // LE or EQ
             if(rset.rhs(idx) < R(infinity))
@@ -1764,7 +1775,7 @@ static void MPSreadRhs(MPSInput& mps, LPRowSetBase<R>& rset, const NameSet& rnam
                mps.entryIgnored("RHS", mps.field1(), "row", mps.field4());
             else
             {
-               val = atof(mps.field5());
+               val = MPSreadValue(mps, mps.field5());
 
                // LE or EQ
                if(rset.rhs(idx) < R(infinity))
@@ -1836,7 +1847,7 @@ static void MPSreadRanges(MPSInput& mps,  LPRowSetBase<R>& rset, const NameSet& 
             mps.entryIgnored("Range", mps.field1(), "row", mps.field2());
          else
          {
-            val = atof(mps.field3());
+            val = MPSreadValue(mps, mps.field3());
 
             // EQ
             if((rset.lhs(idx) > R(-infinity)) && (rset.rhs_w(idx) <  R(infinity)))
@@ -1865,7 +1876,7 @@ static void MPSreadRanges(MPSInput& mps,  LPRowSetBase<R>& rset, const NameSet& 
                mps.entryIgnored("Range", mps.field1(), "row", mps.field4());
             else
             {
-               val = atof(mps.field5());
+               val = MPSreadValue(mps, mps.field5());
 
                // EQ
                if((rset.lhs(idx) > R(-infinity)) && (rset.rhs(idx) <  R(infinity)))
@@ -1960,7 +1971,7 @@ static void MPSreadBounds(MPSInput& mps, LPColSetBase<R>& cset, const NameSet& c
                     || !strcmp(mps.field4(), "+Inf") || !strcmp(mps.field4(), "+inf"))
                val = R(infinity);
             else
-               val = atof(mps.field4());
+               val = MPSreadValue(mps, mps.field4());
 
             // ILOG extension (Integer Bound)
             if(mps.field1()[1] == 'I')
